@@ -57,6 +57,9 @@ fn exhaustive_part(name: &str, rule: &str, property: &str, ctx: &Ctx, rep: eng_h
 }
 
 pub fn run_check(id: &str, tier: Tier) -> i32 {
+    if let Ok(mut p) = runner::CURRENT_PROPERTY.lock() {
+        *p = id.to_string();
+    }
     crate::util::install_panic_hook();
     let ctx = Ctx::new(id, tier);
     runner::start_watchdog(600);
@@ -229,6 +232,17 @@ pub fn run_check(id: &str, tier: Tier) -> i32 {
                 if parts.iter().all(|p| p.failure.is_none()) {
                     parts.push(run_engine(&PairEngine { focus: f }, &ctx, scale(tier, 5_000, 200_000)));
                 }
+            }
+            // the component engines feed h2's HPACK decoder and frame reader directly (hostile templates, mutated and
+            // random blocks and frames); a panic there is a panic a peer can cause
+            if parts.iter().all(|p| p.failure.is_none()) {
+                parts.push(run_engine(&DecEngine, &ctx, scale(tier, 120_000, 2_000_000)));
+            }
+            if parts.iter().all(|p| p.failure.is_none()) {
+                parts.push(run_engine(&SplitEngine, &ctx, scale(tier, 30_000, 500_000)));
+            }
+            if parts.iter().all(|p| p.failure.is_none()) {
+                parts.push(run_engine(&ReadEngine, &ctx, scale(tier, 30_000, 500_000)));
             }
         }
         "C09" => {
@@ -526,6 +540,9 @@ pub fn replay(path: &str) -> i32 {
     let v: Value = serde_json::from_slice(&std::fs::read(path).expect("read replay")).expect("replay json");
     let engine = v["engine"].as_str().unwrap_or("");
     let property = v["property"].as_str().unwrap_or("").to_string();
+    if let Ok(mut p) = runner::CURRENT_PROPERTY.lock() {
+        *p = property.clone();
+    }
     let case = &v["case"];
     if std::env::var("VERIF_DUMP").is_ok() && engine.starts_with("raw-") {
         if let Ok(c) = serde_json::from_value::<crate::eng_raw::RawCase>(case.clone()) {
